@@ -30,7 +30,7 @@ PROFILE = {
 }
 
 
-E2_PROFILE = {'weights': {'app': 14, 'down': 3, 'up': 3, 'reboot': 3, 'resize': 4, 'shave': 4, 'rmsrv': 2, 'srv': 2, 'restart': 2, 'repart': 1, 'dupstart': 3, 'cellrm': 2, 'cellev': 2, 'reparent': 1}, 'force': ['resize', 'shave', 'dupstart'], 'units': [1, 1024, 131072, 1048576]}
+E2_PROFILE = {'weights': {'app': 14, 'down': 3, 'up': 3, 'reboot': 3, 'resize': 4, 'shave': 4, 'rmsrv': 2, 'srv': 2, 'restart': 2, 'repart': 1, 'dupstart': 3, 'cellrm': 2, 'cellev': 2, 'reparent': 1, 'cellbounce': 3}, 'force': ['resize', 'shave', 'dupstart', 'cellbounce'], 'units': [1, 1024, 131072, 1048576]}
 
 
 @st.composite
